@@ -258,6 +258,11 @@ def _mb():
     return _MB
 
 
+def _rdflib_can(c):
+    """rdflib's N-Triples parser only knows ASCII blank-node labels"""
+    return not ((c.sk == "B" and not c.sid.isascii()) or (c.ok == "B" and not c.oval.isascii()))
+
+
 def rdflib_kinded(line):
     import rdflib
     g = rdflib.Graph()
@@ -302,6 +307,8 @@ def cases_focus(syms):
     for (ok, oval) in SUFFIXES + SUFFIXES_FOCUS:
         for pd in PREDOTS + ["\t "]:
             for cm in [None] + COMMENTS_FOCUS:
+                if cm == (" ", " <") and len(syms) > 1:
+                    continue    # an unterminated '<' makes the real reader loop forever: keep those lines few
                 yield Case("I", "http://e/s", PRED, ok, oval, items, " ", " ", pd, cm)
 
 
@@ -424,7 +431,7 @@ def eval_cases(cases, rdflib_every=0, vm_every=0, known=None):
         line = lines[i]
         so = sout[i]
         mobs = parse_doc_row(dout[i])
-        iobs = impl_doc(line, timeout=0.25 if mobs[0] == "H" else 2.0)
+        iobs = impl_doc(line, timeout=0.1 if mobs[0] == "H" else 2.0)
         b.n += 1
         b.status[iobs[0]] += 1
         if len(so) < 4 or so[0] != line:
@@ -458,7 +465,7 @@ def eval_cases(cases, rdflib_every=0, vm_every=0, known=None):
                         b.rc_example.setdefault(r, (line, iobs))
         elif valid and not dom:
             b.out_dom_right += 1
-        if rdflib_every and i % rdflib_every == 0 and valid:
+        if rdflib_every and i % rdflib_every == 0 and valid and _rdflib_can(c):
             b.rdflib_checked += 1
             try:
                 rk = rdflib_kinded(line)
